@@ -1,6 +1,7 @@
 // native replay for stamp.conserve / stamp.free.below_tail: the real stamp_it::thread_data::process_local_nodes /
 // process_global_nodes from /repo on the node lists cbmc found.
 //   process_local_nodes : in_len (0..6 nodes in the local list), in_s0..in_s5 stamps, in_tail (value of the queue's tail stamp)
+//   ~thread_data        : in_dtor=1, in_len, in_s*, in_tail (the thread owns a control block; after the destructor every node must be deleted or in the global list)
 //   process_global_nodes: in_g0,in_g1,in_g2 (nodes per chunk, chunk c = nodes 2c,2c+1), in_s0..in_s5, in_tail
 // exit 0 holds, 1 violation reproduced, 2 cannot represent
 #include <xenium/reclamation/stamp_it.hpp>
@@ -25,7 +26,27 @@ int main(int argc, char** argv) {
   stamp_it::thread_data td;
   int bad = 0;
   #define CHECK(c, ...) do { if (!(c)) { printf("VIOLATION: " __VA_ARGS__); printf("\n"); bad++; } } while (0)
-  if (args.count("in_g0") || args.count("in_g1") || args.count("in_g2")) {
+  if (args["in_dtor"]) {
+    unsigned len = (unsigned)args["in_len"]; if (len > 6) return 2;
+    {
+      stamp_it::thread_data t2;
+      t2.control_block = stamp_it::queue.acquire_control_block();
+      for (unsigned i = 0; i < len; ++i) n[i]->next = i + 1 < len ? n[i + 1] : nullptr;
+      t2.first_retired_node = len ? n[0] : nullptr; t2.prev_retired_node = len ? &n[len - 1]->next : &t2.first_retired_node; t2.number_of_retired_nodes = len;
+    }   // ~thread_data runs here
+    int kept[6] = {};
+    for (auto* c = stamp_it::queue.global_retired_nodes.load(); c; c = c->next_chunk) {
+      int guard = 0;
+      for (auto* x = c; x; x = x->next) { if (x == reinterpret_cast<stamp_it::deletable_object_with_stamp*>(0x10) || ++guard > 8) { CHECK(false, "freed node reachable from the global list"); break; }
+        kept[static_cast<mynode*>(x)->id]++; }
+    }
+    for (unsigned i = 0; i < 6; ++i) {
+      if (i < len) { CHECK(deleted[i] + kept[i] == 1, "node %u of the exiting thread: deleted %d times, handed to the global list %d times", i, deleted[i], kept[i]);
+                     CHECK(!deleted[i] || st[i] <= tail, "node %u deleted with stamp %zu > tail stamp %zu", i, st[i], tail); }
+      else CHECK(deleted[i] == 0 && kept[i] == 0, "foreign node %u touched", i);
+    }
+    printf("~thread_data: %d violations\n", bad);
+  } else if (args.count("in_g0") || args.count("in_g1") || args.count("in_g2")) {
     unsigned g[3] = {(unsigned)args["in_g0"], (unsigned)args["in_g1"], (unsigned)args["in_g2"]};
     if (g[0] > 2 || g[1] > 2 || g[2] > 2) return 2;
     bool used[6] = {};
